@@ -54,6 +54,20 @@ Theorem C05_incompatible_result_rejected :
   forall ps rf sig r, result_ok rf r = false -> direct_ok sig r (TFun ps rf) = false.
 Proof. exact incompatible_result_rejected. Qed.
 
+(* retype() converts explicitly (static_cast): it never removes constness and never converts between
+   unrelated types; a non-const reference still needs a non-const lvalue *)
+Theorem C05_retype_keeps_constness :
+  forall b a, ae_const a = true -> explicit_ok (mkP b FLRef) a = false.
+Proof. exact retype_keeps_constness. Qed.
+Theorem C05_retype_unrelated_rejected :
+  forall p a, ref_related (pt_base p) (ae_base a) = false -> downcast (pt_base p) (ae_base a) = false ->
+    explicit_converts (ae_base a) (pt_base p) = false -> explicit_ok p a = false.
+Proof. exact retype_unrelated_rejected. Qed.
+(* everything that binds implicitly also converts explicitly *)
+Theorem C05_retype_accepts_implicit :
+  forall p a, binds p a = true -> explicit_ok p a = true.
+Proof. exact retype_accepts_implicit. Qed.
+
 Theorem C05_void_and_value_do_not_mix :
   forall b, result_ok None (Some b) = false /\ result_ok (Some b) None = false.
 Proof. intro b; split; reflexivity. Qed.
